@@ -1,5 +1,11 @@
-//! Core-VRL program family: compile a VRL source text with the real lexer/parser/compiler and run it
-//! on an event.  Used by C06-C09, C13 (and later C01/C02/C12/C15-C17/C34).
+//! Typed Core-VRL program family (C01, C02, C12): prog.rs plus
+//!   - optional external kinds for the event / metadata the program is compiled against
+//!     ("ekind", "mkind": kind JSON as in kind.rs),
+//!   - the compiler's type information `Program::final_type_info()`: result TypeDef (kind, fallibility,
+//!     returns kind) and the final event / metadata kinds, read through the public accessors,
+//!   - Rust-side membership verdicts (kind.rs `member`) of the actual result / final event / final
+//!     metadata in those kinds, and of the inputs in the declared external kinds.
+//! Everything else is prog.rs unchanged.
 //! case: {"src": <utf-8 hex of the source>, "event": value, "meta": value?, "vars": [names], "tz": "UTC"?,
 //!        "ro": [{"path": "<target path text>", "recursive": bool}]?, "runs": n?}
 //! result: {"compile": "ok"|"err", "diags": [...], "warnings": [...],
@@ -14,6 +20,13 @@ use vrl::diagnostic::{DiagnosticList, Severity};
 use vrl::path::parse_target_path;
 use vrl::value::{Secrets, Value};
 use vrl_verif_harness::vj::*;
+
+#[allow(dead_code)]
+#[path = "kind.rs"]
+mod kindcodec;
+use kindcodec::{kind_from_json, kind_to_json, member};
+use vrl::compiler::state::ExternalEnv;
+use vrl::value::Kind;
 
 pub fn diags_json(d: &DiagnosticList, src_len: usize) -> J {
     let _ = src_len;
@@ -153,10 +166,12 @@ pub fn run(case: &J) -> J {
     let mut target2 = LogTarget { inner: TargetValue { value: event, metadata: meta, secrets: Secrets::new() },
                                   log: Default::default(), faults: { let mut f = faults_of(case); if !f.is_empty() { f.remove(0); } f }, skip, n: Default::default() };
     let mut rstate = RuntimeState::default();
+    let mut r2ret: Option<bool> = None;
     let r2 = {
         let mut ctx = Context::new(&mut target2, &mut rstate, &tz);
         match program.resolve(&mut ctx) {
-            Ok(value) | Err(ExpressionError::Return { value, .. }) => Ok(value),
+            Ok(value) => { r2ret = Some(false); Ok(value) }
+            Err(ExpressionError::Return { value, .. }) => { r2ret = Some(true); Ok(value) }
             Err(err @ (ExpressionError::Abort { .. } | ExpressionError::Fallible { .. } | ExpressionError::Missing { .. })) => Err(Terminate::Abort(err)),
             Err(err @ ExpressionError::Error { .. }) => Err(Terminate::Error(err)),
         }
@@ -172,12 +187,30 @@ pub fn run(case: &J) -> J {
         }
     }
     let info = program.info();
+    // the compiler's own account of types
+    let tinfo = program.final_type_info();
+    let rkind = tinfo.result.kind().clone();
+    let returns = tinfo.result.returns().clone();
+    let fkind = tinfo.state.external.target_kind().clone();
+    let fmeta = tinfo.state.external.metadata_kind().clone();
+    // a value position reads "missing" as null: undefined in a result kind means null
+    let via_return = matches!(&r2ret, Some(true));
+    let res_member = match &r1 {
+        Ok(v) => Some(if via_return { member(v, &returns.clone().upgrade_undefined()) } else { member(v, &rkind.clone().upgrade_undefined()) }),
+        Err(_) => None,
+    };
     let o1 = outcome(r1);
     let o2 = outcome(r2);
     json!({"compile": "ok", "warnings": diags_json(&res.warnings, src.len()),
            "result": o1, "consistent": faults_of(case).first().copied().unwrap_or(false) || (o1 == o2 && target.value == target2.inner.value && target.metadata == target2.inner.metadata),
            "log": log,
            "event": to_json(&target.value), "meta": to_json(&target.metadata), "vars": J::Object(vars),
+           "tinfo": {"kind": kind_to_json(&rkind), "fallible": tinfo.result.is_fallible(), "returns": kind_to_json(&returns),
+                     "target": kind_to_json(&fkind), "meta": kind_to_json(&fmeta)},
+           "via_return": via_return,
+           "member": {"result": res_member, "event": member(&target.value, &fkind), "meta": member(&target.metadata, &fmeta),
+                      "in_event": member(&from_json(&case["event"]), &ekind0),
+                      "in_meta": member(&case.get("meta").map(from_json).unwrap_or_else(|| Value::Object(BTreeMap::new())), &mkind0)},
            "info": {"fallible": info.fallible, "abortable": info.abortable,
                     "queries": info.target_queries.iter().map(tp_json).collect::<Vec<_>>(),
                     "assignments": info.target_assignments.iter().map(tp_json).collect::<Vec<_>>()}})
